@@ -8,6 +8,10 @@ Level::Level()
 
 MFUS_CLASS_DECLARATION(Listener, Level, NULL)
 {
+    // owned by the script context, not allocated on its own: scripts must not destroy it
+    { &EV_Delete,            NULL },
+    { &EV_Remove,            NULL },
+    { &EV_ScriptRemove,        NULL },
     { NULL, NULL }
 };
 
